@@ -460,6 +460,34 @@ class Runner:
         for k in miss:
             if cont.get(k, 0) is not None:
                 raise Fail(t, f'bulk read after {kind}: absent key {k[:8]} returned data')
+        # bulk streams consumed unevenly: each stream is skipped, peeked at, read in pieces, or sought into - what one stream returns
+        # must not depend on how much of the previous streams was consumed (plans derived from the step, replayable)
+        prnd = random.Random(f'{len(allk)}:{kind}:{getattr(self, "step", 0)}')
+        with c.get_objects_stream_and_meta(allk, skip_if_missing=False) as trip:
+            seen = 0
+            for k, st, m in trip:
+                seen += 1
+                b = model[k]
+                plan = prnd.choice(['skip', 'peek', 'full', 'pieces', 'tail'])
+                if plan == 'skip':
+                    continue
+                if plan == 'peek':
+                    n = prnd.randint(0, max(0, len(b) // 2))
+                    x, exp = st.read(n), b[:n]
+                elif plan == 'full':
+                    x, exp = st.read(), b
+                elif plan == 'pieces':
+                    n = prnd.choice([1, 2, 7])
+                    x, exp = st.read(n) + st.read(n), b[:2 * n]
+                else:
+                    off = prnd.randint(0, len(b))
+                    st.seek(off)
+                    x, exp = st.read(), b[off:]
+                if x != exp:
+                    raise Fail(t | {'C07', 'C16'}, f'bulk stream after {kind}: stream of key {k[:8]} consumed with plan {plan} returns {len(x)} bytes {x[:12]!r}, '
+                                                   f'the stored object gives {len(exp)} bytes {exp[:12]!r} (earlier streams of the same bulk call were consumed unevenly)')
+            if seen != len(allk):
+                raise Fail(t | {'C16'}, f'bulk stream after {kind}: {seen} streams for {len(allk)} keys')
         metas = dict(c.get_objects_meta(allk, skip_if_missing=False))
         for k in allk:
             if c.get_object_content(k) != model[k]:
